@@ -27,7 +27,9 @@ WORDS = ["end", "if", "then", "do", "else", "function", "subroutine", "contains"
          "none", "data", "format", "print", "write", "read", "block", "enum", "include", "result", "bind",
          "while", "concurrent", ".true.", ".and.", ".not.", "1.0e-3", "'str'", "x", "a1", "10", "stop", "go to",
          "common", "namelist", "allocate", "associate", "critical", "submodule", "procedure", "generic", "final",
-         "class", "elsewhere", "endif", "enddo", "len", "kind", "operator", "assignment", "only", "entry", "return"]
+         "class", "elsewhere", "endif", "enddo", "len", "kind", "operator", "assignment", "only", "entry", "return",
+         "2Hab", "1 2Habc", "3H", "read(formatted)", "write(unformatted)", "1pe12.4", "10 format(", "''", '""',
+         "b'101'", "1.0d0", "_8", "%", "=>", "null()", "[", "(/"]
 
 
 def mutate(r, text):
@@ -160,7 +162,21 @@ def build(rnd, tier, flags):
     std = r.pick(["f2003", "f2008"])
     meta = {"origin": dom}
     excl = {}
-    if dom == "soup":
+    if dom == "soup" and r.chance(8):
+        # deep nesting: Python's recursion limit must not leak out as RecursionError
+        n = r.pick([20, 35, 45, 80, 300])
+        shapes_ = [("(", ")"), ("(a + ", ")"), ("[", "]"), ("(-", ")"), ("f(", ")")]
+        if "no_deep_nested_refs" in flags:
+            shapes_ = shapes_[:-1]
+            excl["no_deep_nested_refs"] = 1
+            n = n if n != 20 else 35
+        o, c = r.pick(shapes_)
+        if o == "f(":
+            n = 18
+        src = "subroutine s\nx = " + o * n + "a" + c * n + "\nend\n"
+        meta["deep"] = n
+        origin = None
+    elif dom == "soup":
         toks = []
         for _ in range(r.n(1, 60)):
             k = r.n(0, 9)
@@ -267,14 +283,31 @@ def evaluate(case):
             nontrivial = ln is None or ln > 1
     if o.kind in ("tree", "syntax"):
         return Result(True, None, nontrivial, labels)
+    nested_refs = "+nested-refs" if re.search(r"(?:\w\(){12}", src.replace(" ", "")) else ""
     if o.kind == "budget":
-        return Result(False, "budget-exceeded", True, labels, {"budget": WORK_BUDGET})
+        return Result(False, "budget-exceeded" + nested_refs, True, labels, {"budget": WORK_BUDGET})
     if o.kind == "hang":
-        tag = "+placeholder-name" if re.search(r"F2PY_(EXPR_TUPLE|REAL_CONSTANT|STRING_CONSTANT)_\d", src) else ""
+        tag = "+placeholder-name" if re.search(r"F2PY_(EXPR_TUPLE|REAL_CONSTANT|STRING_CONSTANT)_\d", src) else nested_refs
         return Result(False, "hang:%s%s" % (o.where, tag), True, labels, {"error": o.text})
     if o.kind == "exit":
         return Result(False, "SystemExit:%s" % o.where, True, labels, {"error": o.text})
+    if isinstance(o.exc, RecursionError):
+        return Result(False, "RecursionError:%s" % ("deep-nesting" if meta.get("deep") or _max_depth(src) >= 30 else "other"),
+                      True, labels, {"error": o.text, "nesting": _max_depth(src)})
     return Result(False, "%s:%s" % (type(o.exc).__name__, o.where), True, labels, {"error": o.text})
+
+
+def _max_depth(src):
+    best = d = 0
+    for ch in src:
+        if ch in "([":
+            d += 1
+            best = max(best, d)
+        elif ch in ")]":
+            d = max(0, d - 1)
+        elif ch == "\n":
+            d = 0
+    return best
 
 
 def kf_match(entry, case, res):
